@@ -56,6 +56,22 @@ Theorem C06_set_redundant : forall p x y v,
 Proof. exact PageP.set_pixel_redundant. Qed.
 Print Assumptions C06_set_redundant.
 
+(* Byte by byte: for every index i, byte i of the page after set_pixel is what set_pixel_byte_view computes from byte i
+   before it, and the panic cases coincide -- the form in which pages of several GiB are compared with the code. *)
+Theorem C06_byte_view : forall p x y v i,
+  wf_page p ->
+  set_pixel_byte_view (p_w p) (p_h p) x y v i (nth_error (p_bytes p) (N.to_nat i))
+  = option_map (fun p' => nth_error (p_bytes p') (N.to_nat i)) (set_pixel p x y v).
+Proof. exact PageP.set_pixel_byte_view_spec. Qed.
+Print Assumptions C06_byte_view.
+
+Theorem C06_zero_page_view : forall w h i,
+  w < 4294967296 -> h < 4294967296 ->
+  wf_page {| p_w := w; p_h := h; p_bytes := repeatN 0 (total_bytes w h) |}
+  /\ nth_error (repeatN 0 (total_bytes w h)) (N.to_nat i) = zero_bytes_view w h i.
+Proof. intros w h i Hw Hh. split; [exact (PageP.zero_page_wf w h Hw Hh) | exact (PageP.zero_bytes_view_spec w h i)]. Qed.
+Print Assumptions C06_zero_page_view.
+
 Theorem C06_set_all : forall p v,
   wf_page p ->
   exists p', set_all_pixels p v = Some p' /\ wf_page p' /\ same_frame p p'
